@@ -157,12 +157,19 @@ def gen(cases, path):
         vt = views_ty(c["views"], c["id"], c["idpos"])
         ft = filt_ty(c["filter"])
         pat, body = item_code(c["views"], c["id"], c["idpos"])
-        w.append("fn q%d(world: &mut Wd, v: u32, target: Option<Identifier>) -> Value {\n" % i)
+        w.append("fn q%d(world: &mut Wd, v: u32, target: Option<Identifier>, st: u32) -> Value {\n" % i)
         w.append("    let mut items: Vec<Value> = Vec::new();\n    let mut hints: Vec<Value> = Vec::new();\n")
         if c["kind"] == "iter":
+            proc = "{ let mut c = Map::new(); let mut idv = String::new(); %s items.push(json!({\"id\": idv, \"c\": Value::Object(c)})); }" % body
             w.append("    let mut it = world.query(Query::<%s, %s>::new()).iter;\n" % (vt, ft))
-            w.append("    loop {\n        let h = it.size_hint();\n        hints.push(json!([h.0, h.1.map(|x| x as i64).unwrap_or(-1)]));\n")
-            w.append("        match it.next() {\n            Some(%s) => { let mut c = Map::new(); let mut idv = String::new(); %s items.push(json!({\"id\": idv, \"c\": Value::Object(c)})); }\n            None => break,\n        }\n    }\n" % (pat, body))
+            w.append("    match st {\n")
+            # 0: external iteration with size_hint before every next()
+            w.append("        0 => loop {\n            let h = it.size_hint();\n            hints.push(json!([h.0, h.1.map(|x| x as i64).unwrap_or(-1)]));\n")
+            w.append("            match it.next() {\n                Some(%s) => %s\n                None => break,\n            }\n        },\n" % (pat, proc))
+            # 1: internal iteration (fold) over the whole iterator
+            w.append("        1 => it.for_each(|%s| %s),\n" % (pat, proc))
+            # 2, 3: advance with next() then finish with internal iteration
+            w.append("        _ => {\n            for _ in 0..(st - 1) { if let Some(%s) = it.next() %s }\n            it.fold((), |_, %s| %s);\n        }\n    }\n" % (pat, proc, pat, proc))
             w.append("    json!({\"res\": {\"items\": items, \"hints\": hints, \"found\": true}})\n}\n")
         elif c["kind"] == "par":
             w.append("    let got: Vec<Value> = world.par_query(Query::<%s, %s>::new()).iter.map(|%s| { let mut c = Map::new(); let mut idv = String::new(); %s json!({\"id\": idv, \"c\": Value::Object(c)}) }).collect();\n" % (vt, ft, pat, body))
@@ -187,9 +194,9 @@ def gen(cases, path):
             w.append("        // while the iterator is live, reach the designated entity through the entry views\n")
             w.append("        if via.is_empty() { if let Some(mut e) = r.entries.entry(t) { found = true; if let Some(%s) = e.query(Query::<%s>::new()) { let mut c = Map::new(); let mut idv = String::new(); %s via.push(json!({\"id\": ids(t), \"c\": Value::Object(c)})); } } }\n    }\n" % (spat, subt, sbody))
             w.append("    json!({\"res\": {\"items\": items, \"hints\": hints, \"found\": found, \"via\": via}})\n}\n")
-    w.append("\npub fn run(world: &mut Wd, q: usize, v: u32, target: Option<Identifier>) -> Value {\n    let mut r = match q {\n")
+    w.append("\npub fn run(world: &mut Wd, q: usize, v: u32, target: Option<Identifier>, st: u32) -> Value {\n    let mut r = match q {\n")
     for i in range(len(cases)):
-        w.append("        %d => q%d(world, v, target),\n" % (i, i))
+        w.append("        %d => q%d(world, v, target, st),\n" % (i, i))
     w.append("        _ => panic!(\"harness: bad query\"),\n    };\n    r[\"desc\"] = descriptor(q);\n    r\n}\n")
     open(path, "w").write("".join(w))
     print("generated %d queries" % len(cases))
